@@ -1454,3 +1454,289 @@ Proof.
   split; [reflexivity|]. split; [repeat (apply reach_handle; [|reflexivity]); apply reach_new|].
   split; [reflexivity|]. eexists. split; vm_compute; reflexivity.
 Qed.
+
+(* --------------------------------------- Handle's regexp rewrite, on the pattern text *)
+
+Lemma wild_here_nonslash a r : Byte.eqb a slash = false -> wild_here (a :: r) = None.
+Proof. intro H. destruct r as [|b [|c r']]; cbn [wild_here]; try reflexivity. now rewrite H. Qed.
+
+Lemma find_wild_nil : find_wild [] = None.
+Proof. reflexivity. Qed.
+
+Lemma find_wild_step s c : wild_here (c :: s) = None -> find_wild (c :: s) = find_wild s.
+Proof. intro H. cbn [find_wild]. now rewrite H. Qed.
+
+Lemma replace_wild_nil f : replace_wild_all f [] = [].
+Proof. destruct f; reflexivity. Qed.
+
+Lemma replace_wild_step f c s : wild_here (c :: s) = None ->
+  replace_wild_all (S f) (c :: s) = c :: replace_wild_all f s.
+Proof. intro H. cbn [replace_wild_all]. now rewrite H. Qed.
+
+Lemma find_wild_noslash a T : noslash a = true -> find_wild (a ++ T) = find_wild T.
+Proof.
+  induction a as [|c a IH]; [reflexivity|]. unfold noslash in *. cbn [forallb app]. rewrite andb_true_iff.
+  intros [Hc Ha]. apply negb_true_iff in Hc. rewrite find_wild_step by now apply wild_here_nonslash. now apply IH.
+Qed.
+
+Lemma replace_wild_noslash a : forall f T, noslash a = true -> length a <= f ->
+  replace_wild_all f (a ++ T) = a ++ replace_wild_all (f - length a) T.
+Proof.
+  induction a as [|c a IH]; intros f T Hn Hl.
+  - cbn [app length]. now rewrite Nat.sub_0_r.
+  - unfold noslash in *. cbn [forallb] in Hn. apply andb_true_iff in Hn as [Hc Ha]. apply negb_true_iff in Hc.
+    destruct f as [|f]; [cbn in Hl; lia|]. cbn [app length] in *.
+    rewrite replace_wild_step by now apply wild_here_nonslash. cbn [Nat.sub]. rewrite IH; [reflexivity|assumption|lia].
+Qed.
+
+Lemma span_name_run n : forall t, forallb is_name_byte n = true ->
+  match t with c :: _ => is_name_byte c = false | [] => True end -> span_name (n ++ t) = (n, t).
+Proof.
+  induction n as [|c n IH]; intros t Hn Ht.
+  - cbn [app]. destruct t as [|d t']; [reflexivity|]. cbn [span_name]. now rewrite Ht.
+  - cbn [forallb] in Hn. apply andb_true_iff in Hn as [Hc Hn]. cbn [app span_name]. rewrite Hc, (IH t Hn Ht). reflexivity.
+Qed.
+
+Lemma wild_here_catchall n : name_ok n = true ->
+  wild_here (slash :: lbrace :: star :: n ++ [rbrace]) = Some (n, []).
+Proof.
+  unfold name_ok. rewrite andb_true_iff. intros [Hne Hn]. cbn [wild_here].
+  rewrite !byte_eqb_refl. cbn [andb]. rewrite (span_name_run n [rbrace] Hn eq_refl).
+  rewrite Hne, byte_eqb_refl. reflexivity.
+Qed.
+
+(* the name the regexp captures obeys the documented grammar [a-zA-Z0-9_]+ *)
+Lemma span_name_ok s n t : span_name s = (n, t) -> forallb is_name_byte n = true.
+Proof.
+  revert n t. induction s as [|c r IH]; intros n t H; cbn [span_name] in H.
+  - injection H as <- _. reflexivity.
+  - destruct (is_name_byte c) eqn:Ec.
+    + destruct (span_name r) as [n' t'] eqn:E. injection H as <- _. cbn [forallb]. rewrite Ec. exact (IH _ _ eq_refl).
+    + injection H as <- _. reflexivity.
+Qed.
+
+Lemma wild_here_name_ok s n t : wild_here s = Some (n, t) -> name_ok n = true.
+Proof.
+  destruct s as [|a [|b [|c r]]]; try discriminate. cbn [wild_here].
+  destruct (Byte.eqb a slash && Byte.eqb b lbrace && Byte.eqb c star); [|discriminate].
+  destruct (span_name r) as [n' [|d t']] eqn:E; [discriminate|].
+  destruct (negb (is_nil n') && Byte.eqb d rbrace) eqn:C; [|discriminate]. intro H. injection H as <- _.
+  apply andb_true_iff in C as [C _]. unfold name_ok. rewrite C. exact (span_name_ok _ _ _ E).
+Qed.
+
+Lemma find_wild_name_ok s n : find_wild s = Some n -> name_ok n = true.
+Proof.
+  induction s as [|c r IH]; [discriminate|]. cbn [find_wild].
+  destruct (wild_here (c :: r)) as [[n' t]|] eqn:E.
+  - intro H. injection H as <-. exact (wild_here_name_ok _ _ _ E).
+  - exact IH.
+Qed.
+
+(* a '/' followed by a literal or {name} segment does not start a match *)
+Lemma wild_here_plain_seg x rest : seg_wf x = true -> (forall n, x <> CatchAll n) -> render_seg true x <> [] ->
+  wild_here (slash :: render_seg true x ++ rest) = None.
+Proof.
+  intros Hw Hnc Hne. destruct x as [l|n|n]; cbn [render_seg seg_wf] in *.
+  - destruct l as [|b l']; [congruence|]. cbn [forallb] in Hw. apply andb_true_iff in Hw as [Hb _].
+    destruct (plain_facts b Hb) as (_ & _ & _ & _ & _ & Hlb & _).
+    cbn [app]. destruct (l' ++ rest) as [|c r']; cbn [wild_here]; [reflexivity|]. rewrite Hlb, andb_false_r. reflexivity.
+  - unfold name_ok in Hw. apply andb_true_iff in Hw as [Hne' Hn]. destruct n as [|c n']; [discriminate|].
+    cbn [forallb] in Hn. apply andb_true_iff in Hn as [Hc _]. destruct (name_byte_facts c Hc) as (_ & Hst & _).
+    cbn [app wild_here]. rewrite Hst, andb_false_r. reflexivity.
+  - exfalso. now apply (Hnc n).
+Qed.
+
+Lemma render_seg_true_noslash x : seg_wf x = true -> (forall n, x <> CatchAll n) -> noslash (render_seg true x) = true.
+Proof.
+  intros Hw Hnc. destruct x as [l|n|n]; [| |exfalso; now apply (Hnc n)].
+  - exact (rs_noslash (Lit l) Hw).
+  - exact (rs_noslash (Var n) Hw).
+Qed.
+
+Lemma render_seg_same x : (forall n, x <> CatchAll n) -> render_seg false x = render_seg true x.
+Proof. destruct x; try reflexivity. intro H. exfalso. now apply (H n). Qed.
+
+Definition Jt (p : pattern) : bstr := join_slash (map (render_seg true) p).
+Definition Jf (p : pattern) : bstr := join_slash (map (render_seg false) p).
+
+Lemma rewrite_segments p : wf_segs p = true -> p <> [] -> forall f, length (slash :: Jt p) <= f ->
+  find_wild (slash :: Jt p) = catchall_name p /\ replace_wild_all f (slash :: Jt p) = slash :: Jf p.
+Proof.
+  induction p as [|x r IH]; [congruence|]. intros Hw _ f Hf. unfold Jt, Jf in *.
+  assert (Hx : seg_wf x = true /\ render_seg true x <> []).
+  { destruct x as [l|n|n]; cbn [wf_segs seg_wf render_seg] in *; rewrite ?andb_true_iff in Hw.
+    - destruct Hw as [[Hne Hp] _]. split; [assumption|]. destruct l; [discriminate|discriminate].
+    - destruct Hw as [Hn _]. split; [assumption|discriminate].
+    - destruct Hw as [Hn _]. split; [assumption|discriminate]. }
+  destruct Hx as [Hsx Hnx]. destruct r as [|y r'].
+  - cbn [map join_slash] in *. destruct x as [l|n|n].
+    + assert (Hnc : forall m, Lit l <> CatchAll m) by discriminate.
+      pose proof (wild_here_plain_seg (Lit l) [] Hsx Hnc Hnx) as Hh. rewrite app_nil_r in Hh.
+      pose proof (render_seg_true_noslash (Lit l) Hsx Hnc) as Hns. cbn [render_seg] in *. split.
+      * rewrite find_wild_step by assumption. rewrite <- (app_nil_r l), find_wild_noslash by assumption. reflexivity.
+      * destruct f as [|f]; [cbn in Hf; lia|]. rewrite replace_wild_step by assumption.
+        rewrite <- (app_nil_r l) at 1. rewrite replace_wild_noslash; [|assumption|cbn in Hf; lia].
+        now rewrite replace_wild_nil, app_nil_r.
+    + assert (Hnc : forall m, Var n <> CatchAll m) by discriminate.
+      pose proof (wild_here_plain_seg (Var n) [] Hsx Hnc Hnx) as Hh. rewrite app_nil_r in Hh.
+      pose proof (render_seg_true_noslash (Var n) Hsx Hnc) as Hns. cbn [render_seg] in *. split.
+      * rewrite find_wild_step by assumption. rewrite <- (app_nil_r (lbrace :: n ++ [rbrace])), find_wild_noslash by assumption. reflexivity.
+      * destruct f as [|f]; [cbn in Hf; lia|]. rewrite replace_wild_step by assumption.
+        rewrite <- (app_nil_r (lbrace :: n ++ [rbrace])) at 1. rewrite replace_wild_noslash; [|assumption|cbn [length] in *; lia].
+        now rewrite replace_wild_nil, app_nil_r.
+    + cbn [render_seg seg_wf catchall_name] in *. pose proof (wild_here_catchall n Hsx) as Hh. split.
+      * cbn [find_wild]. now rewrite Hh.
+      * destruct f as [|f]; [cbn in Hf; lia|]. cbn [replace_wild_all]. rewrite Hh, replace_wild_nil. reflexivity.
+  - assert (Hnc : forall m, x <> CatchAll m).
+    { intros m ->. cbn [wf_segs] in Hw. apply andb_true_iff in Hw as [_ Hw]. discriminate. }
+    assert (Hr : wf_segs (y :: r') = true).
+    { destruct x; cbn [wf_segs] in Hw; rewrite ?andb_true_iff in Hw; try tauto. exfalso. now apply (Hnc n). }
+    rewrite !join_map_cons in *. rewrite (render_seg_same x Hnc).
+    pose proof (wild_here_plain_seg x (slash :: join_slash (map (render_seg true) (y :: r'))) Hsx Hnc Hnx) as Hh.
+    pose proof (render_seg_true_noslash x Hsx Hnc) as Hns.
+    destruct f as [|f]; [cbn in Hf; lia|].
+    assert (Hlen : length (render_seg true x) <= f /\
+                   length (slash :: join_slash (map (render_seg true) (y :: r'))) <= f - length (render_seg true x)).
+    { cbn [length] in *. rewrite app_length in Hf. cbn [length] in Hf. lia. }
+    destruct Hlen as [Hl1 Hl2].
+    destruct (IH Hr ltac:(discriminate) (f - length (render_seg true x)) Hl2) as [IH1 IH2]. split.
+    + rewrite find_wild_step by assumption. rewrite find_wild_noslash by assumption. rewrite IH1.
+      destruct x; reflexivity.
+    + rewrite replace_wild_step by assumption. rewrite replace_wild_noslash by assumption. now rewrite IH2.
+Qed.
+
+(* Handle's text rewrite agrees with the structured model: chi gets chi_render p, the table
+   gets the catch-all's name, nothing is rewritten when there is no catch-all *)
+Lemma rewrite_pattern_render p : wf_pattern p = true ->
+  rewrite_pattern (goa_render p) = (chi_render p, catchall_name p).
+Proof.
+  intro Hw. destruct p as [|x r]; [discriminate|].
+  assert (Hc : (x :: r = [Lit []]) \/ (wf_segs (x :: r) = true)).
+  { destruct x as [l| |]; try (now right). destruct l; [|now right]. destruct r; [now left|now right]. }
+  destruct Hc as [->|Hs]; [reflexivity|].
+  destruct (rewrite_segments (x :: r) Hs ltac:(discriminate) (length (goa_render (x :: r))) (le_n _)) as [H1 H2].
+  unfold rewrite_pattern. change (goa_render (x :: r)) with (slash :: Jt (x :: r)) in *. rewrite H1.
+  pose proof (wf_pattern_ca_last _ Hw) as Hca.
+  destruct (catchall_name (x :: r)) as [n|] eqn:Cn.
+  - now rewrite H2.
+  - f_equal. symmetry. now apply render_no_catchall.
+Qed.
+
+Lemma rewrite_pattern_no_match s : find_wild s = None -> rewrite_pattern s = (s, None).
+Proof. intro H. unfold rewrite_pattern. now rewrite H. Qed.
+
+(* ------------------------------------------------------ chi's precedence is sound *)
+
+Lemma matches_nil_segs q : is_some (matches q []) = true -> q = [].
+Proof. destruct q as [|s q]; [reflexivity|]. destruct s; discriminate. Qed.
+
+Lemma filter_head {A} (f : A -> bool) (l : list A) x t : filter f l = x :: t -> In x l /\ f x = true.
+Proof. intro H. apply filter_In. rewrite H. now left. Qed.
+
+Lemma filter_nil_false {A} (f : A -> bool) (l : list A) x : filter f l = [] -> In x l -> f x = false.
+Proof.
+  intros H Hin. destruct (f x) eqn:E; [|reflexivity]. assert (Hx : In x (filter f l)) by (apply filter_In; now split).
+  rewrite H in Hx. contradiction.
+Qed.
+
+Lemma first_done_some st r : first_done st = Some r -> In (r, []) st.
+Proof.
+  unfold first_done. match goal with |- context [filter ?f st] => destruct (filter f st) as [|[r0 q0] l] eqn:F end; [discriminate|].
+  cbn [fst]. intro H. injection H as <-. apply filter_head in F as [Hin Hq]. cbn [snd] in Hq. apply is_nil_true in Hq. now subst.
+Qed.
+
+Lemma first_done_complete st r : In (r, []) st -> first_done st <> None.
+Proof.
+  intro Hin. unfold first_done. match goal with |- context [filter ?f st] => destruct (filter f st) as [|rp l] eqn:F end; [|discriminate].
+  pose proof (filter_nil_false _ _ _ F Hin) as H. discriminate H.
+Qed.
+
+Lemma first_catchall_some st r : first_catchall st = Some r -> exists n q, In (r, CatchAll n :: q) st.
+Proof.
+  unfold first_catchall. match goal with |- context [filter ?f st] => destruct (filter f st) as [|[r0 q0] l] eqn:F end; [discriminate|].
+  cbn [fst]. intro H. injection H as <-. apply filter_head in F as [Hin Hq]. cbn [snd] in Hq.
+  destruct q0 as [|[| |n] q0]; try discriminate. now exists n, q0.
+Qed.
+
+Lemma first_catchall_complete st r n q : In (r, CatchAll n :: q) st -> first_catchall st <> None.
+Proof.
+  intro Hin. unfold first_catchall. match goal with |- context [filter ?f st] => destruct (filter f st) as [|rp l] eqn:F end; [|discriminate].
+  pose proof (filter_nil_false _ _ _ F Hin) as H. discriminate H.
+Qed.
+
+Lemma chi_dfs_in segs : forall st r, chi_dfs segs st = Some r ->
+  exists q, In (r, q) st /\ is_some (matches q segs) = true.
+Proof.
+  induction segs as [|x segs' IH]; intros st r H.
+  - cbn [chi_dfs] in H. apply first_done_some in H. now exists [].
+  - cbn [chi_dfs] in H. destruct (chi_dfs segs' (adv_lit x st)) as [r1|] eqn:E1.
+    + injection H as <-. destruct (IH _ _ E1) as (q & Hin & Hm). unfold adv_lit in Hin.
+      apply in_flat_map in Hin as ([r0 p0] & Hin0 & Hin1). cbn [fst snd] in Hin1.
+      destruct p0 as [|[s| |] q0]; try contradiction. destruct (beq s x) eqn:B; [|contradiction].
+      destruct Hin1 as [Heq|[]]. injection Heq as <- <-. exists (Lit s :: q0). split; [assumption|].
+      cbn [matches]. now rewrite B.
+    + destruct (is_nil x && is_nil segs') eqn:C.
+      * apply first_catchall_some in H as (n & q0 & Hin). exists (CatchAll n :: q0). split; [assumption|reflexivity].
+      * destruct (chi_dfs segs' (adv_var st)) as [r2|] eqn:E2.
+        -- injection H as <-. destruct (IH _ _ E2) as (q & Hin & Hm). unfold adv_var in Hin.
+           apply in_flat_map in Hin as ([r0 p0] & Hin0 & Hin1). cbn [fst snd] in Hin1.
+           destruct p0 as [|[|n|] q0]; try contradiction. destruct Hin1 as [Heq|[]]. injection Heq as <- <-.
+           exists (Var n :: q0). split; [assumption|]. cbn [matches]. rewrite C.
+           destruct (matches q0 segs'); [reflexivity|discriminate].
+        -- apply first_catchall_some in H as (n & q0 & Hin). exists (CatchAll n :: q0). split; [assumption|reflexivity].
+Qed.
+
+Lemma chi_dfs_complete segs : forall st r q, In (r, q) st -> is_some (matches q segs) = true ->
+  chi_dfs segs st <> None.
+Proof.
+  induction segs as [|x segs' IH]; intros st r q Hin Hm.
+  - apply matches_nil_segs in Hm. subst q. cbn [chi_dfs]. now apply (first_done_complete st r).
+  - cbn [chi_dfs]. destruct q as [|[s|n|n] q0]; [discriminate| | |].
+    + cbn [matches] in Hm. destruct (beq s x) eqn:B; [|discriminate].
+      assert (Hin' : In (r, q0) (adv_lit x st)).
+      { unfold adv_lit. apply in_flat_map. exists (r, Lit s :: q0). split; [assumption|]. cbn [fst snd]. rewrite B. now left. }
+      pose proof (IH _ _ _ Hin' Hm) as Hn. destruct (chi_dfs segs' (adv_lit x st)); [discriminate|contradiction].
+    + cbn [matches] in Hm. destruct (is_nil x && is_nil segs') eqn:C; [discriminate|].
+      destruct (matches q0 segs') eqn:Em; [|discriminate].
+      destruct (chi_dfs segs' (adv_lit x st)); [discriminate|].
+      assert (Hin' : In (r, q0) (adv_var st)).
+      { unfold adv_var. apply in_flat_map. exists (r, Var n :: q0). split; [assumption|]. now left. }
+      assert (Hm' : is_some (matches q0 segs') = true) by now rewrite Em.
+      pose proof (IH _ _ _ Hin' Hm') as Hn. destruct (chi_dfs segs' (adv_var st)); [discriminate|contradiction].
+    + destruct (chi_dfs segs' (adv_lit x st)); [discriminate|].
+      destruct (if is_nil x && is_nil segs' then None else chi_dfs segs' (adv_var st)); [discriminate|].
+      now apply (first_catchall_complete st r n q0).
+Qed.
+
+(* what chi_pick returns is one of the candidates and matches the path *)
+Lemma chi_pick_in segs cs r : chi_pick segs cs = Some r ->
+  In r cs /\ is_some (matches (r_pat r) segs) = true.
+Proof.
+  unfold chi_pick. intro H. destruct (chi_dfs_in _ _ _ H) as (q & Hin & Hm).
+  apply in_map_iff in Hin as (r0 & Heq & Hin). injection Heq as <- <-. now split.
+Qed.
+
+(* it always answers when some candidate matches: backtracking makes the search complete *)
+Lemma chi_pick_complete segs cs r : In r cs -> is_some (matches (r_pat r) segs) = true ->
+  chi_pick segs cs <> None.
+Proof.
+  intros Hin Hm. unfold chi_pick. apply (chi_dfs_complete segs _ r (r_pat r)); [|assumption].
+  apply in_map_iff. now exists r.
+Qed.
+
+Lemma chi_pick_total_sound : sound chi_pick_total.
+Proof.
+  intros segs cs. unfold chi_pick_total. destruct (chi_pick segs cs) as [r|] eqn:E.
+  - exact (proj1 (chi_pick_in _ _ _ E)).
+  - destruct cs as [|r cs']; [reflexivity|now left].
+Qed.
+
+(* on the matching set of a request the total version IS chi's precedence *)
+Lemma chi_pick_total_on_cands m me segs : chi_pick_total segs (cands m me segs) = chi_pick segs (cands m me segs).
+Proof.
+  unfold chi_pick_total. destruct (chi_pick segs (cands m me segs)) as [r|] eqn:E; [reflexivity|].
+  destruct (cands m me segs) as [|r cs'] eqn:Ec; [reflexivity|]. exfalso.
+  assert (Hin : In r (cands m me segs)) by (rewrite Ec; now left).
+  unfold cands in Hin. apply filter_In in Hin as [_ Hm]. apply andb_true_iff in Hm as [_ Hm].
+  rewrite <- Ec in E. refine (chi_pick_complete segs (cands m me segs) r _ Hm E). rewrite Ec. now left.
+Qed.
